@@ -22,6 +22,11 @@ func init() {
 }
 
 func checkC14(c *Ctx) {
+	c.checkErrorDiscipline("errors.no-new-dropped-error/par", "internal/par", map[string]string{
+	})
+	c.checkErrorDiscipline("errors.no-new-dropped-error/mvs", "internal/mod/mvs", map[string]string{
+		"Req|internal/mod/mvs.walk": "the second walk closure never returns a non-nil error (it only marks `have`)",
+	})
 	// (a) capture discipline
 	bl := c.fn("internal/mod/mvs", "buildList")
 	n := c.checkCaptureDiscipline("capture.buildList", bl, nil)
